@@ -604,6 +604,7 @@ def run(ctx):
                 (cases if cs is not None else mal).append((cs if cs is not None else b, (int(w[2]), int(w[3]), int(w[4]))))
             elif cs is not None:
                 shape_cases.append(cs)
+    ncorpus = len(cases)
     if not ctx.replay:
         cases += gen_lines(ctx)
         long_cases += gen_long(ctx)
@@ -622,7 +623,10 @@ def run(ctx):
     # ---------------- dir_context / dir_match / dir_reorder
     lap('build probes and model')
     nshort = len(cases)
-    words = ['ren'] * nshort + ['dir'] * len(long_cases)
+    # quick tier: generated lines of 9 and more characters go as `dir` requests -- this check reads dctx, dm, ord and rord only,
+    # which both words print; the column functions of `ren` (C17's observables) cost the model 0.2 .. 0.6 s per such line and
+    # made up most of the wall time.  Corpus and replay requests keep their word; the thorough tier runs every line as `ren`.
+    words = ['ren' if (i < ncorpus or not ctx.quick or len(cs) < 9) else 'dir' for i, (cs, _o) in enumerate(cases)] + ['dir'] * len(long_cases)
     cases = cases + long_cases
     reqs = [req(cs, opt, w) for (cs, opt), w in zip(cases, words)] + [req(b, opt) for b, opt in mal]
     heads = []
